@@ -917,7 +917,7 @@ impl Prop for C10 {
     fn fuzz(t: Tier) -> Option<FuzzSpec> {
         match t {
             Tier::Quick => None,
-            Tier::Thorough => Some(FuzzSpec { target: "c10_routing", runs: 1000000, max_len: 256 }),
+            Tier::Thorough => Some(FuzzSpec { target: "c10_routing", runs: 100_000, max_len: 256 }),
         }
     }
 }
